@@ -529,7 +529,19 @@ func (w *tnWorld) settle(done func(o tnObservation) bool) tnObservation {
 		w.n[1].tickPending()
 		w.barriers()
 		o = w.observe()
-		if done(o) || time.Now().After(deadline) {
+		if done(o) {
+			return o
+		}
+		if time.Now().After(deadline) {
+			// what a node has taken over from its convergence layer a moment ago may not have reached its
+			// application yet: look a few more times before anything is concluded from what is missing
+			for extra := 0; extra < 6; extra++ {
+				time.Sleep(300 * time.Millisecond)
+				w.barriers()
+				if o = w.observe(); done(o) {
+					break
+				}
+			}
 			return o
 		}
 		time.Sleep(time.Duration(2+round) * time.Millisecond)
